@@ -996,3 +996,156 @@ func (c *Ctx) globalConstMap(e *an.Expr) (map[int64]int64, bool) {
 	}
 	return out, found
 }
+
+// globalStructTable returns, as struct expressions, the rows the package
+// initialiser stores into a package-level slice or array of structs that
+// nothing else writes (`var routes = []route{{"/a", h1}, {"/b", h2}}`).
+func (c *Ctx) globalStructTable(e *an.Expr) ([]*an.Expr, bool) {
+	for e != nil && (e.Op == an.OpSlice || e.Op == an.OpConv) && len(e.Args) > 0 {
+		e = e.Args[0]
+	}
+	if e == nil || e.Op != an.OpGlobal {
+		return nil, false
+	}
+	var g *ssa.Global
+	for _, pkg := range c.P.SSA.AllPackages() {
+		if !load.InModulePkg(pkg) {
+			continue
+		}
+		for _, m := range pkg.Members {
+			if gv, ok := m.(*ssa.Global); ok && pkg.Pkg.Name()+"."+gv.Name() == e.Name {
+				g = gv
+			}
+		}
+	}
+	if g == nil {
+		return nil, false
+	}
+	for _, fn := range c.srcFuncs() {
+		for _, b := range fn.Blocks {
+			for _, in := range b.Instrs {
+				if st, ok := in.(*ssa.Store); ok {
+					addr := st.Addr
+					for {
+						switch x := addr.(type) {
+						case *ssa.FieldAddr:
+							addr = x.X
+							continue
+						case *ssa.IndexAddr:
+							addr = x.X
+							continue
+						}
+						break
+					}
+					if addr == ssa.Value(g) {
+						return nil, false
+					}
+				}
+			}
+		}
+	}
+	init := g.Pkg.Func("init")
+	if init == nil {
+		return nil, false
+	}
+	// the backing array: the global itself (array variable) or the array sliced into it
+	var base ssa.Value
+	for _, b := range init.Blocks {
+		for _, in := range b.Instrs {
+			switch x := in.(type) {
+			case *ssa.Store:
+				if x.Addr == ssa.Value(g) {
+					switch v := x.Val.(type) {
+					case *ssa.Slice:
+						base = v.X
+					case *ssa.UnOp:
+						base = v.X
+					}
+				}
+			case *ssa.IndexAddr:
+				if x.X == ssa.Value(g) && base == nil {
+					base = g
+				}
+			}
+		}
+	}
+	if base == nil {
+		return nil, false
+	}
+	// element struct type
+	var elemT types.Type
+	switch t := base.Type().Underlying().(type) {
+	case *types.Pointer:
+		if arr, ok := t.Elem().Underlying().(*types.Array); ok {
+			elemT = arr.Elem()
+		}
+	}
+	if elemT == nil {
+		return nil, false
+	}
+	st, ok := elemT.Underlying().(*types.Struct)
+	if !ok {
+		return nil, false
+	}
+	x := &an.Extractor{InModule: load.InModule, MaxDepth: 0, NoInline: map[*ssa.Function]bool{}}
+	rows := map[int64]*an.Expr{}
+	scan := func(ia *ssa.IndexAddr) bool {
+		idx, ok := ia.Index.(*ssa.Const)
+		if !ok || ia.Referrers() == nil {
+			return false
+		}
+		row := rows[idx.Int64()]
+		if row == nil {
+			row = &an.Expr{Op: an.OpStruct, Typ: elemT, Args: make([]*an.Expr, st.NumFields())}
+			rows[idx.Int64()] = row
+		}
+		for _, r := range *ia.Referrers() {
+			fa, ok := r.(*ssa.FieldAddr)
+			if !ok || fa.Referrers() == nil {
+				continue
+			}
+			for _, u := range *fa.Referrers() {
+				if s, ok := u.(*ssa.Store); ok && fa.Field < len(row.Args) {
+					row.Args[fa.Field] = x.Of(s.Val)
+				}
+			}
+		}
+		return true
+	}
+	if base == ssa.Value(g) {
+		for _, b := range init.Blocks {
+			for _, in := range b.Instrs {
+				if ia, ok := in.(*ssa.IndexAddr); ok && ia.X == ssa.Value(g) {
+					if !scan(ia) {
+						return nil, false
+					}
+				}
+			}
+		}
+	} else if base.Referrers() != nil {
+		for _, r := range *base.Referrers() {
+			if ia, ok := r.(*ssa.IndexAddr); ok {
+				if !scan(ia) {
+					return nil, false
+				}
+			}
+		}
+	}
+	if len(rows) == 0 {
+		return nil, false
+	}
+	var out []*an.Expr
+	for i := int64(0); i < int64(len(rows)); i++ {
+		r, ok := rows[i]
+		if !ok {
+			return nil, false
+		}
+		for k, a := range r.Args {
+			if a == nil {
+				r.Args[k] = &an.Expr{Op: an.OpZero, Typ: st.Field(k).Type(), Name: "zero"}
+			}
+		}
+		out = append(out, r)
+	}
+	return out, true
+}
